@@ -115,6 +115,11 @@ func Harness_C07_permute() {
 		// the two descriptors name different vehicles: trip 0 may be associated with only one of them (conflict-freedom)
 		vr.Assume(!(refV0 && refT0))
 	}
+	// trip 0's own update may be an ADDED trip: references with the default relationship then name another trip
+	added := vr.Bool("tu0.added")
+	if added {
+		vr.Assume(!(refV0 && refT0)) // vehicle 0 goes with one of the two trips only (conflict-freedom)
+	}
 	kinds := make([]int, E)
 	var ents []*gtfsrt.FeedEntity
 	for e := 0; e < E; e++ {
@@ -123,6 +128,10 @@ func Harness_C07_permute() {
 			vr.Assume(kinds[p] != kinds[e])
 		}
 		ents = append(ents, hC07Entity(kinds[e], tdesc, vdesc, refV0, refT0, refT1))
+		if kinds[e] == 0 && added {
+			sr := gtfsrt.TripDescriptor_ADDED
+			ents[e].TripUpdate.Trip.ScheduleRelationship = &sr
+		}
 		if kinds[e] == 1 && ownDesc0 != nil {
 			c := *ownDesc0
 			ents[e].Vehicle.Vehicle = &c
@@ -167,7 +176,14 @@ func Harness_C07_permute() {
 	}
 	for i := range base.Trips {
 		t := &base.Trips[i]
-		if t.ID.ID == tid[0] {
+		ownRel := t.ID.ScheduleRelationship == gtfsrt.TripDescriptor_SCHEDULED
+		if added {
+			ownRel = t.ID.ScheduleRelationship == gtfsrt.TripDescriptor_ADDED
+		}
+		if t.ID.ID == tid[0] && !ownRel {
+			vr.Assert("C07.own.trip", !t.IsEntityInMessage) // only referenced
+		}
+		if t.ID.ID == tid[0] && ownRel {
 			vr.Assert("C07.own.trip", t.IsEntityInMessage == has(0))
 			if has(0) {
 				vr.Assert("C07.own.trip.data", len(t.StopTimeUpdates) == 1)
